@@ -4,6 +4,7 @@ import (
 	"go/ast"
 	"go/token"
 	"go/types"
+	"strings"
 
 	"verif/checker/internal/astx"
 	"verif/checker/internal/cfgx"
@@ -721,12 +722,14 @@ func mentionsGlobal(info *types.Info, e ast.Expr, name string) bool {
 }
 
 // c05API (A5–A7): found by the sweep of package api.
-//   A5 error discipline and frozen error dispositions of the handlers that propose entries and of applyMessageWait;
-//   A6 the hand-off to the leader answers: every normal return of maybeProxyToLeader has passed the proxy's ServeHTTP or an
-//      http.Error (a hand-off that silently returns makes the handler acknowledge with an empty 200);
-//   A7 the proposal is stamped with the proposing node's clock before it is encoded (compaction and session expiry are
-//      judged by this time), and the id is taken from the raft index after the commit.
+//
+//	A5 error discipline and frozen error dispositions of the handlers that propose entries and of applyMessageWait;
+//	A6 the hand-off to the leader answers: every normal return of maybeProxyToLeader has passed the proxy's ServeHTTP or an
+//	   http.Error (a hand-off that silently returns makes the handler acknowledge with an empty 200);
+//	A7 the proposal is stamped with the proposing node's clock before it is encoded (compaction and session expiry are
+//	   judged by this time), and the id is taken from the raft index after the commit.
 func (c *Ctx) c05API() {
+	c.c05HeaderBeforeBody()
 	r := c.R
 	names := []string{"api.(*HTTP).applyMessageWait", "api.(*HTTP).handlePostMessage", "api.(*HTTP).handleCreateSession", "api.(*HTTP).handleDeleteSession", "api.(*HTTP).handlePostConfig", "api.(*HTTP).applyConfig", "api.(*HTTP).handleKill", "api.(*HTTP).maybeProxyToLeader", "api.parseLastSeen", "api.(*HTTP).handleGetMessages", "api.(*HTTP).getMessages", "api.(*HTTP).session", "api.(*HTTP).sessionOrProxy"}
 	nErr := 0
@@ -738,6 +741,9 @@ func (c *Ctx) c05API() {
 	if nErr < 10 {
 		r.Break("C05.A5: only %d error definitions found in the proposing handlers", nErr)
 	}
+	// applyMessageWait reports failure only when encoding or raft does: a "failed" proposal that commits all the same is
+	// answered as refused and applied on every node
+	c.noOwnErrors("C05.A5", c.P.Func("api.(*HTTP).applyMessageWait"), "the caller answers 'not applied' for an entry that raft goes on to commit: the client retries or gives up, and every replica applies it")
 	c.errorDispositions("C05.A5", []string{"api"}, func(fn string) bool {
 		for _, n := range names {
 			if fn == n {
@@ -826,5 +832,145 @@ func (c *Ctx) c05API() {
 		}
 		r.Check(okID, "C05.A7", amw.Name(), "a committed message gets the id of its raft index", c.P.Pos(amw.Node().Pos()), "msg.Id.Id = robust.IdFromRaftIndex(f.Index()) dominates return nil",
 			"applyMessageWait reports success without having put the committed entry's id into the message: handleCreateSession hands the client session id 0")
+	}
+}
+
+// c05HeaderBeforeBody (A6b): an HTTP answer's status is set before its body: once anything was written to the response
+// writer the status is 200, and a later WriteHeader (or http.Error) is ignored — a failure is then answered "200 OK" and
+// the client takes its POST for acknowledged. For every function and function literal of package api with a response
+// writer: no body write reaches a WriteHeader / http.Error on the same writer.
+func (c *Ctx) c05HeaderBeforeBody() {
+	c.c05FreshProposal()
+	r := c.R
+	n := 0
+	clientFacing := map[string]bool{"api.(*HTTP).handlePostMessage": true, "api.(*HTTP).handleCreateSession": true, "api.(*HTTP).handleDeleteSession": true,
+		"api.(*HTTP).handleGetMessages": true, "api.(*HTTP).maybeProxyToLeader": true, "api.(*HTTP).sessionOrProxy": true, "api.(*HTTP).DispatchPublic": true}
+	for _, fi := range c.P.FuncsIn("api") {
+		if fi.Body() == nil || !clientFacing[fi.Name()] {
+			continue
+		}
+		info := fi.Info()
+		type unit struct {
+			g    *cfgx.Graph
+			name string
+		}
+		units := []unit{{c.Graph(fi), fi.Name()}}
+		for k, lit := range funcLitsIn(fi.Body()) {
+			units = append(units, unit{c.LitGraph(fi.Name()+"$hdrlit"+itoa(k), lit, info), fi.Name()})
+		}
+		isWriter := func(e ast.Expr) types.Object {
+			id, ok := ast.Unparen(e).(*ast.Ident)
+			if !ok {
+				return nil
+			}
+			o := astx.Obj(info, id)
+			if o == nil || !strings.HasSuffix(o.Type().String(), "net/http.ResponseWriter") {
+				return nil
+			}
+			return o
+		}
+		for _, u := range units {
+			g := u.g
+			bodyW := map[int]types.Object{}
+			hdrW := map[int]types.Object{}
+			for _, v := range g.Nodes() {
+				for _, call := range astx.Calls(v.Node, false) {
+					fn := astx.Callee(info, call)
+					if se, ok := ast.Unparen(call.Fun).(*ast.SelectorExpr); ok {
+						if w := isWriter(se.X); w != nil {
+							switch se.Sel.Name {
+							case "Write":
+								bodyW[v.ID] = w
+							case "WriteHeader":
+								hdrW[v.ID] = w
+							}
+						}
+					}
+					if fn != nil && fn.Pkg() != nil && len(call.Args) > 0 {
+						p, nm := fn.Pkg().Path(), fn.Name()
+						if w := isWriter(call.Args[0]); w != nil {
+							switch {
+							case p == "fmt" && strings.HasPrefix(nm, "Fprint"), p == "io" && (nm == "WriteString" || nm == "Copy"):
+								bodyW[v.ID] = w
+							case p == "net/http" && nm == "Error":
+								hdrW[v.ID] = w
+							}
+						}
+					}
+				}
+			}
+			for hv, w := range hdrW {
+				n++
+				late := false
+				for bv, bw := range bodyW {
+					if bw == w && bv != hv && g.Reach(bv, nil, nil)[hv] {
+						late = true
+					}
+				}
+				r.Check(!late, "C05.A6", u.name, "the status is set before anything is written to the response", c.P.Pos(g.V[hv].Node.Pos()), "no body write reaches this WriteHeader / http.Error",
+					"the response body is written before the status: the status stays 200, so a failed request (a proxy that could not reach the leader, a refused proposal) is acknowledged to the client")
+			}
+		}
+	}
+	if n < 5 {
+		r.Break("C05.A6: only %d status-setting calls found in the client-facing handlers", n)
+	}
+}
+
+// c05FreshProposal (A7b): applyMessageWait stamps the message it is given and stores the assigned id in it; the id of an entry
+// defaults to its raft index only while the field is still zero. A message object that is proposed a second time carries the
+// first proposal's id: for every call of applyMessageWait inside a loop, the message is built inside that loop.
+func (c *Ctx) c05FreshProposal() {
+	r := c.R
+	amw := c.P.Func("api.(*HTTP).applyMessageWait")
+	if amw == nil {
+		return
+	}
+	n := 0
+	for _, fi := range c.P.FuncsIn("api") {
+		if fi.Body() == nil {
+			continue
+		}
+		info := fi.Info()
+		var loops []ast.Node
+		var walk func(n ast.Node)
+		walk = func(root ast.Node) {
+			ast.Inspect(root, func(m ast.Node) bool {
+				switch x := m.(type) {
+				case *ast.ForStmt, *ast.RangeStmt:
+					loops = append(loops, x)
+				}
+				return true
+			})
+		}
+		walk(fi.Body())
+		for _, call := range callsIn(fi, func(fn *types.Func, _ *ast.CallExpr) bool { return fn == amw.Obj }) {
+			if len(call.Args) < 1 {
+				continue
+			}
+			n++
+			var inLoop ast.Node
+			for _, l := range loops {
+				if l.Pos() <= call.Pos() && call.End() <= l.End() && (inLoop == nil || l.Pos() > inLoop.Pos()) {
+					inLoop = l
+				}
+			}
+			if inLoop == nil {
+				continue
+			}
+			ok := false
+			if id, isID := ast.Unparen(call.Args[0]).(*ast.Ident); isID {
+				if o := astx.Obj(info, id); o != nil && o.Pos() >= inLoop.Pos() && o.Pos() <= inLoop.End() {
+					ok = true // declared inside the loop
+				}
+			} else if _, isLit := ast.Unparen(call.Args[0]).(*ast.UnaryExpr); isLit {
+				ok = true
+			}
+			r.Check(ok, "C05.A7", fi.Name(), "a message proposed in a loop is a fresh message each time", c.P.Pos(call.Pos()), "the message variable is declared inside the loop",
+				"one message object is proposed several times: from the second proposal on it already carries an id (that of the previous entry), so the entry does not get the id of its own raft index")
+		}
+	}
+	if n < 4 {
+		r.Break("C05.A7: only %d proposals (calls of applyMessageWait) found in package api", n)
 	}
 }
